@@ -31,6 +31,9 @@ def run(tier):
     bad = [b for _, bd in res for b in bd]
     combos = set()
     for e in events:
+        if e["e"] == "row":
+            combos.add(("row", e["kind"], e["rows"], e["cols"], e["es"], e["i"]))
+            continue
         combos.add((e["kind"], e["el"], e["ity"], e["w"], e["len"], e["cls"]))
     for b, ev in bad:
         chk.violation("array indexing outside the C17 Contract: %s" % ac.pretty(ev), ac.pretty(ev))
@@ -45,7 +48,7 @@ def run(tier):
     chk.cov["exhaustive"] = True
     chk.cov["exhaustive_scope"] = "every 8-bit index and (per tier) every 16-bit index for lengths {1,2,3,5,8,16}(+{4,7,9,15}) x " \
                                   "6 element types x application/sandbox memory x plain/tainted index; 32/64-bit indices at " \
-                                  "-1, length, type limits and values aliasing a valid index after truncation; one 2-D shape; lengths 300 " \
+                                  "-1, length, type limits and values aliasing a valid index after truncation; one 2-D shape and the rows of a 2-D and a 3-D shape (size and position of what the first index designates); lengths 300 " \
                                   "and 40000 (longer than the range of 8-/16-bit index types) with every 8- and 16-bit index; indices read from a sandbox-memory cell that is rewritten after every read (8 index types x 9 arrays x scripts of valid / invalid values, 3 ABIs)"
     chk.assumptions += ["flag-abort build; element offsets are measured with std::addressof on the returned reference"]
     return chk.finish(rule="one evaluation = one run of consecutive indices with one outcome, judged by TLC "
